@@ -159,7 +159,30 @@ def _res_ok(r, op):
 
 
 WIDTHS = list(range(1, 18)) + [23, 24, 25, 31, 32, 33, 63, 64, 65, 100, 127, 128, 129, 255, 256]
-OTHERS = ["x", None, 1.5]
+class _Others(list):
+    """things that are no integers: text, None, floats -- and frames, byte strings and sequences (which ARE values in other
+    places of the API), a Decimal, an object that merely converts to an integer"""
+    def __init__(self):
+        super().__init__(["x", None, 1.5])
+        self._full = False
+
+    def fill(self):
+        if not self._full:
+            from decimal import Decimal
+            from dali.frame import Frame, ForwardFrame, BackwardFrame
+
+            class Ix:
+                def __index__(self):
+                    return 1
+
+                def __int__(self):
+                    return 1
+            self.extend([Frame(8, 0x55), Frame(1, 1), ForwardFrame(16, 3), BackwardFrame(0), b"\x01", [1], (0,), 2.0, Decimal(1), Ix()])
+            self._full = True
+        return self
+
+
+OTHERS = _Others()
 
 
 def _idx(rng, w):
@@ -182,6 +205,7 @@ def _ixrec(x):
 def history(seed, hk, nops, maxpool=4):
     from dali.frame import Frame, ForwardFrame
     rng = random.Random(seed * 1000003 + hk)
+    OTHERS.fill()
     hid = 10_000_000 + hk
     pool = []
     for _ in range(rng.randint(1, 2)):
@@ -206,7 +230,7 @@ def history(seed, hk, nops, maxpool=4):
                 call = lambda: f[k]
             elif op == "setbit":
                 k = _idx(rng, w)
-                v = rng.choice([0, 1, True, False, 0, 1, "x", "", None, 7])
+                v = rng.choice([0, 1, True, False, 0, 1, "x", "", None, 7] + OTHERS[3:8])
                 e["ak"], e["a"] = _ixrec(k)
                 e["val"] = _val(v)
 
